@@ -17,10 +17,12 @@ import (
 	"os"
 	"os/exec"
 	"path/filepath"
+	"runtime"
 	"sort"
 	"strconv"
 	"strings"
 	"sync"
+	"sync/atomic"
 	"syscall"
 	"time"
 
@@ -130,7 +132,46 @@ type Config struct {
 	SubprocMinimise  bool // violations must be confirmed/minimised in fresh processes (crash/hang/race worlds)
 	ExtraWorkerEnv   []string
 	MemLimitMB       int
+	SubprocBudget    int           // minimisation attempts for violations that need a fresh process each (default 40)
+	SelfArgs         []string      // arguments every child invocation needs first (test binaries: -test.run=...)
+	WatchdogTimeout  time.Duration // in-process liveness bound per case: dump stacks, exit 3 (0 = CaseTimeout/2)
 }
+
+// HangInfo, when set by a world, is printed by the watchdog before the stack dump.
+var HangInfo func() string
+
+var caseStartNs atomic.Int64
+
+func (c Config) watchdog() time.Duration {
+	if c.WatchdogTimeout > 0 {
+		return c.WatchdogTimeout
+	}
+	return c.CaseTimeout / 2
+}
+
+// startWatchdog bounds the wall time of a single case. It consults a real
+// clock only as a liveness bound on a deterministic sequential computation; it
+// takes no part in scheduling. On expiry it dumps every goroutine and exits 3.
+func startWatchdog(d time.Duration) {
+	go func() {
+		for {
+			time.Sleep(50 * time.Millisecond)
+			s := caseStartNs.Load()
+			if s != 0 && time.Since(time.Unix(0, s)) > d {
+				buf := make([]byte, 4<<20)
+				n := runtime.Stack(buf, true)
+				info := ""
+				if HangInfo != nil {
+					info = HangInfo()
+				}
+				fmt.Fprintf(os.Stderr, "\nVERIF-HANG after %s\n%s\n%s\n", d, info, buf[:n])
+				os.Exit(3)
+			}
+		}
+	}()
+}
+
+func beat() { caseStartNs.Store(time.Now().UnixNano()) }
 
 type caseMsg struct {
 	T     string     `json:"t"`
@@ -177,6 +218,7 @@ var (
 	fCases   = flag.Int("cases", 0, "override cases per worker (quick)")
 	fSecs    = flag.Int("secs", 0, "override seconds per worker (thorough)")
 	fNoEvid  = flag.Bool("no-evidence", false, "do not write the evidence file")
+	fWd      = flag.Int("wd", 0, "one: watchdog seconds override")
 	fEvents  = flag.String("events", "", "worker: write one line per case with its outcome hash (determinism self-test)")
 )
 
@@ -199,7 +241,7 @@ func Main(w World, cfg Config) {
 	case "worker":
 		os.Exit(workerMain(w, cfg))
 	case "one":
-		os.Exit(oneMain(w))
+		os.Exit(oneMain(w, cfg))
 	case "replay":
 		os.Exit(replayMain(w, cfg))
 	default:
@@ -229,6 +271,7 @@ func workerMain(w World, cfg Config) int {
 	start := time.Now()
 	n := 0
 	seenSig := map[string]bool{}
+	startWatchdog(cfg.watchdog())
 	for i := *fFirst; ; i++ {
 		if *fCount > 0 && n >= *fCount {
 			break
@@ -241,6 +284,7 @@ func workerMain(w World, cfg Config) int {
 		}
 		cs := CaseSeed(*fSeed, i)
 		emit(out, caseMsg{T: "start", Case: i, Seed: cs})
+		beat()
 		t := tape.New(cs)
 		v := w.RunCase(t, st)
 		n++
@@ -259,6 +303,7 @@ func workerMain(w World, cfg Config) int {
 					if calls++; calls%50 == 0 {
 						emit(out, caseMsg{T: "beat", Case: i})
 					}
+					beat()
 					r := w.RunCase(tape.Replay(c), nil)
 					if r == nil {
 						return ""
@@ -278,7 +323,13 @@ func workerMain(w World, cfg Config) int {
 }
 
 // oneMain runs a single case from a tape file (or a case seed) and prints its verdict.
-func oneMain(w World) int {
+func oneMain(w World, cfg Config) int {
+	wd := 3 * cfg.watchdog()
+	if *fWd > 0 {
+		wd = time.Duration(*fWd) * time.Second
+	}
+	startWatchdog(wd)
+	beat()
 	var t *tape.Tape
 	if *fFile != "" {
 		b, err := os.ReadFile(*fFile)
@@ -338,10 +389,11 @@ func replayMain(w World, cfg Config) int {
 // supervisor
 
 type found struct {
-	v    Violation
-	seed uint64
-	tape []uint32
-	note string
+	v       Violation
+	seed    uint64
+	tape    []uint32
+	note    string
+	subproc bool // found through a dying/hanging worker: confirm and shrink in fresh processes
 }
 
 type job struct {
@@ -371,7 +423,7 @@ func runOneSubproc(rec []uint32, cfg Config, timeout time.Duration) (sig, detail
 	tf := filepath.Join(dir, "tape.json")
 	b, _ := json.Marshal(rec)
 	os.WriteFile(tf, b, 0o644)
-	cmd := exec.Command(self(), "-mode=one", "-file="+tf)
+	cmd := exec.Command(self(), append(append([]string{}, cfg.SelfArgs...), "-mode=one", "-file="+tf, fmt.Sprintf("-wd=%d", wdSeconds(timeout)))...)
 	cmd.Env = append(os.Environ(), cfg.ExtraWorkerEnv...)
 	cmd.Env = append(cmd.Env, "VERIF_WORKDIR="+dir)
 	var stdout, stderr strings.Builder
@@ -393,6 +445,12 @@ func runOneSubproc(rec []uint32, cfg Config, timeout time.Duration) (sig, detail
 		}
 		return "", "timeout", false
 	}
+	if strings.Contains(stderr.String(), "VERIF-HANG") {
+		if cfg.HangIsViolation {
+			return "hang|" + hangSite(stderr.String()), hangDetail(stderr.String()), true
+		}
+		return "", "watchdog", false
+	}
 	for _, line := range strings.Split(stdout.String(), "\n") {
 		if strings.HasPrefix(line, `{"t":"one"`) {
 			var m caseMsg
@@ -410,6 +468,26 @@ func runOneSubproc(rec []uint32, cfg Config, timeout time.Duration) (sig, detail
 	return "", "no verdict line; stderr: " + tail(stderr.String(), 2000), false
 }
 
+func hangDetail(stderr string) string {
+	i := strings.Index(stderr, "VERIF-HANG")
+	if i < 0 {
+		return "case did not return"
+	}
+	return "case did not return within the liveness bound; watchdog dump:\n" + head(stderr[i:], 3500)
+}
+
+// wdSeconds: the in-process watchdog of a child fires a little before the
+// parent's kill timeout so that we get the stack dump rather than a SIGKILL.
+func wdSeconds(timeout time.Duration) int {
+	s := int(timeout.Seconds()) - 2
+	if s < 1 {
+		s = 1
+	}
+	return s
+}
+
+var abort atomic.Bool
+
 func tail(s string, n int) string {
 	if len(s) > n {
 		return "..." + s[len(s)-n:]
@@ -424,7 +502,57 @@ func head(s string, n int) string {
 	return s
 }
 
-func hangSite(stderr string) string { return "no-return" }
+// hangSite derives a stable site from a watchdog stack dump: the library frames
+// of the goroutines that were running (a spin), else of those blocked.
+func hangSite(stderr string) string {
+	i := strings.Index(stderr, "VERIF-HANG")
+	if i < 0 {
+		return "no-return"
+	}
+	var running, blocked []string
+	for _, b := range strings.Split(stderr[i:], "\n\n") {
+		lines := strings.Split(b, "\n")
+		for len(lines) > 0 && !strings.HasPrefix(lines[0], "goroutine ") {
+			lines = lines[1:]
+		}
+		if len(lines) == 0 || strings.Contains(b, "super.startWatchdog") {
+			continue
+		}
+		var lib []string
+		for _, l := range lines[1:] {
+			if strings.HasPrefix(l, "github.com/sdcio/yang-parser/") {
+				fn := strings.TrimPrefix(l, "github.com/sdcio/yang-parser/")
+				if k := strings.LastIndex(fn, "("); k > 0 {
+					fn = fn[:k]
+				}
+				lib = append(lib, fn)
+			}
+		}
+		if len(lib) == 0 {
+			continue
+		}
+		// A spin is sampled at an arbitrary instant, so inner frames vary from
+		// dump to dump; the outermost two library frames are stable.
+		site := lib[len(lib)-1]
+		if len(lib) >= 2 {
+			site = lib[len(lib)-1] + ">" + lib[len(lib)-2]
+		}
+		if strings.Contains(lines[0], "[running") || strings.Contains(lines[0], "[runnable") {
+			running = append(running, site)
+		} else {
+			blocked = append(blocked, site)
+		}
+	}
+	sort.Strings(running)
+	sort.Strings(blocked)
+	if len(running) > 0 {
+		return "spin@" + strings.Join(running, ",")
+	}
+	if len(blocked) > 0 {
+		return "blocked@" + strings.Join(blocked, ",")
+	}
+	return "no-return"
+}
 
 // CrashSite extracts a stable site from a Go fatal error / panic dump: the kind
 // of failure and the first frames that belong to the library under test.
@@ -597,6 +725,9 @@ func superMain(w World, cfg Config) int {
 		if cfg.CasesPerProcess > 0 && nf > 50 {
 			break
 		}
+		if abort.Load() {
+			break
+		}
 		jobCh <- j
 	}
 	close(jobCh)
@@ -621,7 +752,7 @@ func superMain(w World, cfg Config) int {
 	knownHit := map[string]bool{}
 	for _, s := range sigs {
 		f := bySig[s]
-		if cfg.SubprocMinimise {
+		if cfg.SubprocMinimise || f.subproc {
 			// confirm in a fresh process, then shrink across processes
 			sig, det, ok := runOneSubproc(f.tape, cfg, 10*cfg.CaseTimeout)
 			if !ok {
@@ -635,8 +766,16 @@ func superMain(w World, cfg Config) int {
 			if det != "" {
 				f.v.Detail = det
 			}
-			min := tape.Minimise(f.tape, s, cfg.MinimiseBudget, func(c []uint32) string {
-				sg, _, _ := runOneSubproc(c, cfg, 4*cfg.CaseTimeout)
+			budget := cfg.SubprocBudget
+			if budget <= 0 {
+				budget = 24
+			}
+			min := tape.Minimise(f.tape, s, budget, func(c []uint32) string {
+				wd := cfg.watchdog() / 2
+				if wd < 2*time.Second {
+					wd = 2 * time.Second
+				}
+				sg, _, _ := runOneSubproc(c, cfg, wd+2*time.Second)
 				return sg
 			})
 			if sg, det, ok := runOneSubproc(min, cfg, 10*cfg.CaseTimeout); ok && sg == s {
@@ -718,6 +857,9 @@ func runWorker(j job, cfg Config, workdir string) (fs []found, trouble []string,
 	st.cap = 1 << 24
 	restarts := 0
 	for {
+		if abort.Load() {
+			break
+		}
 		secs := 0
 		if j.secs > 0 {
 			secs = j.secs - int(time.Since(started).Seconds())
@@ -735,7 +877,7 @@ func runWorker(j job, cfg Config, workdir string) (fs []found, trouble []string,
 		} else {
 			args = append(args, fmt.Sprintf("-count=%d", remaining))
 		}
-		cmd := exec.Command(self(), args...)
+		cmd := exec.Command(self(), append(append([]string{}, cfg.SelfArgs...), args...)...)
 		cmd.Env = append(os.Environ(), cfg.ExtraWorkerEnv...)
 		cmd.Env = append(cmd.Env, "VERIF_WORKDIR="+dir)
 		stderrPath := filepath.Join(dir, "stderr")
@@ -763,6 +905,10 @@ func runWorker(j job, cfg Config, workdir string) (fs []found, trouble []string,
 				case <-doneCh:
 					return
 				case <-tk.C:
+					if abort.Load() {
+						syscall.Kill(-cmd.Process.Pid, syscall.SIGKILL)
+						return
+					}
 					mu.Lock()
 					late := time.Since(lastStart) > cfg.CaseTimeout && !finished
 					mu.Unlock()
@@ -828,6 +974,10 @@ func runWorker(j job, cfg Config, workdir string) (fs []found, trouble []string,
 		if fin && werr == nil {
 			break
 		}
+		if abort.Load() {
+			ncases += casesThis
+			break
+		}
 		// the worker died or was killed inside case lastCase
 		stderrB, _ := os.ReadFile(stderrPath)
 		stderrS := string(stderrB)
@@ -835,33 +985,26 @@ func runWorker(j job, cfg Config, workdir string) (fs []found, trouble []string,
 			trouble = append(trouble, "worker died before its first case: "+tail(stderrS, 1500))
 			break
 		}
+		if strings.Contains(stderrS, "VERIF-HANG") {
+			wasHung = true
+		}
 		ncases += casesThis
 		cs := lastSeed
-		if wasHung {
-			if cfg.HangIsViolation {
-				fs = append(fs, found{v: Violation{Class: "hang", Sig: "hang|unconfirmed", Detail: "case exceeded " + cfg.CaseTimeout.String()}, seed: cs, tape: nil, note: "hang"})
-				// confirmation happens below through seed replay
-				f := &fs[len(fs)-1]
-				sig, det, ok := confirmSeed(cs, cfg, 10*cfg.CaseTimeout)
-				if ok && strings.HasPrefix(sig, "hang|") {
-					f.v.Sig, f.v.Detail, f.tape = sig, det, seedTape(cs, cfg)
-				} else {
-					fs = fs[:len(fs)-1]
-					trouble = append(trouble, fmt.Sprintf("case seed %d exceeded the per-case budget once but returned when run alone (%s %s); not reported", cs, sig, det))
-				}
-			} else {
-				trouble = append(trouble, fmt.Sprintf("worker stuck in case %d (seed %d)", lastCase, cs))
-			}
+		if wasHung && !cfg.HangIsViolation {
+			trouble = append(trouble, fmt.Sprintf("worker stuck in case %d (seed %d)", lastCase, cs))
+		} else if !wasHung && !cfg.CrashIsViolation {
+			trouble = append(trouble, fmt.Sprintf("worker died in case %d (seed %d): %s", lastCase, cs, tail(stderrS, 1500)))
 		} else {
-			if cfg.CrashIsViolation {
-				sig, det, ok := confirmSeed(cs, cfg, 10*cfg.CaseTimeout)
-				if ok && sig != "" {
-					fs = append(fs, found{v: Violation{Class: strings.SplitN(sig, "|", 2)[0], Sig: sig, Detail: det}, seed: cs, tape: seedTape(cs, cfg)})
-				} else {
-					trouble = append(trouble, fmt.Sprintf("worker died in case %d (seed %d) but the case alone did not fail: %s // %s", lastCase, cs, det, tail(stderrS, 1500)))
-				}
-			} else {
-				trouble = append(trouble, fmt.Sprintf("worker died in case %d (seed %d): %s", lastCase, cs, tail(stderrS, 1500)))
+			sig, det, ok := confirmSeed(cs, cfg, 10*cfg.CaseTimeout)
+			switch {
+			case ok && sig != "":
+				fs = append(fs, found{v: Violation{Class: strings.SplitN(sig, "|", 2)[0], Sig: sig, Detail: det}, seed: cs, tape: seedTape(cs, cfg), subproc: true})
+				// a confirmed crash or hang: the verdict is settled, do not spend the rest of the budget dying
+				abort.Store(true)
+			case wasHung:
+				trouble = append(trouble, fmt.Sprintf("case seed %d exceeded the per-case budget once but returned cleanly when run alone; not reported (%s)", cs, head(det, 300)))
+			default:
+				trouble = append(trouble, fmt.Sprintf("worker died in case %d (seed %d) but the case alone did not fail: %s // %s", lastCase, cs, head(det, 300), tail(stderrS, 1500)))
 			}
 		}
 		restarts++
@@ -881,7 +1024,7 @@ func runWorker(j job, cfg Config, workdir string) (fs []found, trouble []string,
 
 // confirmSeed re-runs the case with the given case seed alone in a fresh process.
 func confirmSeed(cs uint64, cfg Config, timeout time.Duration) (sig, detail string, ok bool) {
-	cmd := exec.Command(self(), "-mode=one", fmt.Sprintf("-seed=%d", cs))
+	cmd := exec.Command(self(), append(append([]string{}, cfg.SelfArgs...), "-mode=one", fmt.Sprintf("-seed=%d", cs))...)
 	dir, _ := os.MkdirTemp("", "verif-one-")
 	defer os.RemoveAll(dir)
 	cmd.Env = append(os.Environ(), cfg.ExtraWorkerEnv...)
@@ -901,6 +1044,9 @@ func confirmSeed(cs uint64, cfg Config, timeout time.Duration) (sig, detail stri
 		syscall.Kill(-cmd.Process.Pid, syscall.SIGKILL)
 		<-done
 		return "hang|" + hangSite(stderr.String()), "case did not return within " + timeout.String() + " when run alone", true
+	}
+	if strings.Contains(stderr.String(), "VERIF-HANG") {
+		return "hang|" + hangSite(stderr.String()), hangDetail(stderr.String()), true
 	}
 	for _, line := range strings.Split(stdout.String(), "\n") {
 		if strings.HasPrefix(line, `{"t":"one"`) {
